@@ -325,6 +325,75 @@ def strCat (a b : PV) : PV :=
   | str x, str y => str (x ++ y)
   | _, _ => err "TypeError"
 
+/-- `s.strip()` (ASCII white space) -/
+def stripL (cs : List Char) : List Char :=
+  let ws := fun (c : Char) => c == ' ' || c == '\n' || c == '\t' || c == '\r'
+  ((cs.dropWhile ws).reverse.dropWhile ws).reverse
+
+def strStrip : PV → PV
+  | str s => str (String.ofList (stripL s.toList))
+  | err e => err e
+  | _ => err "AttributeError"
+
+/-- value of a decimal literal `[+-]digits[.digits][(e|E)[+-]digits]` (at least one digit in the mantissa); `none` = not of
+that form.  Python's `float()` accepts more (`inf`, `nan`, underscores): outside the model. -/
+def parseDec (cs : List Char) : Option Rat :=
+  let (neg, cs) := match cs with
+    | '-' :: r => (true, r)
+    | '+' :: r => (false, r)
+    | _ => (false, cs)
+  let isE := fun (c : Char) => c == 'e' || c == 'E'
+  let mant := cs.takeWhile (fun c => !isE c)
+  let ex := cs.dropWhile (fun c => !isE c)
+  let ip := mant.takeWhile (· != '.')
+  let fp := (mant.dropWhile (· != '.')).drop 1
+  let val := fun (ds : List Char) => ds.foldl (fun a c => a * 10 + (c.toNat - 48)) 0
+  if (ip.isEmpty && fp.isEmpty) || !(ip.all Char.isDigit) || !(fp.all Char.isDigit) then none
+  else
+    let e10 : Option Int := match ex with
+      | [] => some 0
+      | _ :: r =>
+        let (eneg, r) := match r with
+          | '-' :: t => (true, t)
+          | '+' :: t => (false, t)
+          | _ => (false, r)
+        if r.isEmpty || !(r.all Char.isDigit) then none
+        else some (if eneg then - (val r : Int) else (val r : Int))
+    match e10 with
+    | none => none
+    | some e =>
+      let k : Int := e - (fp.length : Int)
+      let m : Rat := (val (ip ++ fp) : Nat)
+      let v : Rat := if 0 ≤ k then m * (10 : Rat) ^ k.toNat else m / (10 : Rat) ^ (-k).toNat
+      some (if neg then -v else v)
+
+/-- `float(x)`: of a string, the nearest double of a decimal literal (surrounding white space allowed; anything else, and the
+empty string, is a `ValueError`; exponents beyond ±300 are outside the model); of a number, its float -/
+def floatOf : PV → PV
+  | str s =>
+    match parseDec (stripL s.toList) with
+    | some v => if v = 0 ∨ ((1 : Rat) / 10 ^ 300 < (if v < 0 then -v else v) ∧ (if v < 0 then -v else v) < 10 ^ 300)
+                then flt (some (rnd v)) else err "range"
+    | none => err "ValueError"
+  | int i => flt (some (rnd i))
+  | flt x => flt x
+  | err e => err e
+  | _ => err "TypeError"
+
+/-- `math.ceil(x)`: an int -/
+def ceilF : PV → PV
+  | flt (some x) => int (-((-x).floor))
+  | flt none => err "ValueError"
+  | int i => int i
+  | err e => err e
+  | _ => err "TypeError"
+
+/-- `len(str(n))` of an int -/
+def lenStr : PV → PV
+  | int i => int (toString i).length
+  | err e => err e
+  | _ => err "TypeError"
+
 /-- `list(x)` of a list of ints -/
 def toList : PV → PV
   | arr _ xs => arr .big xs
